@@ -247,8 +247,11 @@ func checkC15(c *Ctx) {
 		var lo int
 		fmt.Sscanf(cs.Name, "runes:%d", &lo)
 		n := 0
-		for cp := max(lo, 0x80); cp < lo+chunk && cp <= 0x10FFFF+1; cp++ {
+		for cp := lo; cp < lo+chunk && cp <= 0x10FFFF+1; cp++ {
 			rs := string(rune(cp))
+			if cp < 0x80 {
+				rs = string([]byte{byte(cp)}) // every ASCII byte, NUL included
+			}
 			for pos := 0; pos < 6; pos++ {
 				if c.Quick() && pos%3 != 1 && cp >= 0x3000 {
 					continue
@@ -270,8 +273,12 @@ func checkC15(c *Ctx) {
 					cs.Violation("panic", nil, fmt.Sprintf("AnnotationKey/UpdateAnnotations panic for plugin %q id %q: %v", plugin, id, pv), map[string]any{"stack": st})
 					return
 				}
+				legal := cp < 0x80 && mK8sQualifiedName(cdiPrefix+plugin+"_"+strings.ReplaceAll(id, "/", "_"))
+				if legal {
+					continue // (whether a legal request must succeed is not the property's business)
+				}
 				if kerr == nil || uerr == nil {
-					cs.Violation("illegal-key", map[string]string{"sweep": "code-points"}, fmt.Sprintf("plugin %q, device id %q (U+%04X at position %d): AnnotationKey = %q err=%v, UpdateAnnotations = %v err=%v; a key with a non-ASCII character is not a legal Kubernetes annotation key", plugin, id, cp, pos, key, kerr, out, uerr), map[string]any{"plugin": plugin, "deviceID": id, "code_point": cp})
+					cs.Violation("illegal-key", map[string]string{"sweep": "code-points"}, fmt.Sprintf("plugin %q, device id %q (U+%04X at position %d): AnnotationKey = %q err=%v, UpdateAnnotations = %v err=%v; the resulting key is not a legal Kubernetes annotation key", plugin, id, cp, pos, key, kerr, out, uerr), map[string]any{"plugin": plugin, "deviceID": id, "code_point": cp})
 					return
 				}
 			}
